@@ -139,7 +139,14 @@ func runOne(c *vh.Ctx, cf *vh.CaseFile, sc Scenario) {
 		c.Res.Violate("monitor", v.Key, v.What, replay{Scenario: sc})
 	}
 	for _, p := range problems {
-		c.Res.Violate("monitor", "worker-protocol", p, replay{Scenario: sc})
+		key := "worker-protocol"
+		if strings.HasPrefix(p, "PendingCount()") {
+			key = "pending-count-negative"
+		}
+		c.Res.Violate("monitor", key, p, replay{Scenario: sc})
+	}
+	if o.Outst < 0 {
+		o.Outst = 0
 	}
 	cf.Add(CoqCase(sc, o, labels), replay{Scenario: sc, Note: "history rejected by the model or projections differ"})
 }
